@@ -190,7 +190,7 @@ def run(ctx):  # noqa: C901, PLR0912, PLR0915
     okv = default_validate is True and len(vcalls) >= 2
     for n, _c in vcalls:
         facts = g2.facts_at(n)
-        okv = okv and ('validate', True) in facts and all(txt in ('validate', 'message.msg_node is None') for txt, _p in facts)
+        okv = okv and ('validate', True) in facts and all(txt in ('validate', 'message.msg_node is None') for txt, _p in facts.resolved)  # aliases resolved
     ctx.ob('C13.R2', 'validation switched only by the parameter', okv,
            'read_received_message validates envelope and body unless validate=False is passed; default is True',
            fi=rd, witness=[g2.facts_at(n) for n, _ in vcalls])
